@@ -356,8 +356,11 @@ fn observe(local: &[u8; 32], x: &[u8]) -> Value {
                         Ok((v2, aad2)) => json!({"acc": true, "pkt": Fields::of_view(&v2).json(), "aad": h(&aad2)}),
                         Err(e) => json!({"acc": false, "pkt": [], "aad": e}),
                     };
+                    // bytes of the authenticated data returned by the decoder that belong to no field of the returned packet,
+                    // although the packet has no record that could account for them
+                    let dropped = f.rec.is_none() && aad.len() > aadv.len();
                     o["got"] = json!({"pkt": f.json(), "aad": h(&aad), "enc": h(&enc), "ind": h(&ind),
-                                       "aadv": h(&aadv), "aadi": h(&aadi), "re": re});
+                                       "aadv": h(&aadv), "aadi": h(&aadi), "re": re, "dropped": dropped});
                 }
             }
         }
